@@ -156,6 +156,18 @@ Proof.
     destruct items; cbn; try exact I; try reflexivity; try exact Hit.
 Qed.
 
+Lemma pre_panic_no_lazy : forall stream items, no_lazy items -> pre_panic stream items = None.
+Proof.
+  intros stream items H. unfold pre_panic. destruct stream; [|reflexivity].
+  destruct items as [|[e|i] its]; try reflexivity. discriminate.
+Qed.
+
+Lemma with_post_safe : forall stream b r, nres_safe r -> nres_safe (with_post stream b r).
+Proof.
+  intros stream b r H. destruct b; cbn [with_post]; auto.
+  destruct r as [[|[e0|i] it] c|es|]; cbn; auto.
+Qed.
+
 Lemma tool_conv_panics_free : forall ts, forallb conv_free_tool ts = true -> tool_conv_panics ts = [].
 Proof.
   intros ts H. destruct (tool_conv_panics ts) as [|it l] eqn:E; [reflexivity|].
@@ -202,7 +214,7 @@ Section Safe.
     conv_free_node n = true -> no_lazy items -> nres_safe (exec_node F stream rec items canc n).
   Proof.
     intros rec items canc n Hrec Hn Hit. destruct n as [k f b|k gi|k ts]; cbn [exec_node].
-    - apply exec_lambda_safe; assumption.
+    - apply with_post_safe. apply exec_lambda_safe; assumption.
     - destruct (nth_error F gi) as [g|] eqn:Eg; [|exact I].
       specialize (Hrec g items canc (forest_graph_free _ _ Eg) Hit).
       destruct (rec g items canc); cbn in *; auto.
@@ -218,6 +230,8 @@ Section Safe.
     - destruct cur; cbn; [exact Hit|]. destruct canc; exact I.
     - destruct cur as [|st rest]; cbn [steps]; [exact Hit|].
       destruct canc; [exact I|].
+      destruct (pre_fails stream items st) as [|pf0 pfs];
+        [|cbv beta iota; rewrite (pre_panic_no_lazy stream items Hit); exact I].
       rewrite stage_fold_spec. cbn [orb app].
       set (rs := map (fun n => (node_key n, exec_node F stream rec items false n)) st).
       unfold conv_free_stages in Hcur. cbn [forallb] in Hcur. apply andb_true_iff in Hcur.
